@@ -765,31 +765,71 @@ class Interp(object):
         if not (isinstance(eq, FuncInfo) and isinstance(hs, FuncInfo)):
             raise AnalysisError("%s defines only one of __eq__ / __hash__; its use as a dictionary key is not modelled" % k.cls.qualname)
 
-        def attr_of(fn: FuncInfo, which: str):
+        def view_of(fn: FuncInfo, which: str):
+            """the expression E(self) such that __eq__ answers E(self) == E(other) / __hash__ answers hash(E(self)): an
+            attribute, or a chain of attributes and argument-less method calls (`self.folded()`, `self.seq.upper()`)"""
             ps = [a.arg for a in fn.node.args.args]
-            found = set()
+            found = {}
+
+            def chain_root(e):
+                while True:
+                    if isinstance(e, ast.Attribute):
+                        e = e.value
+                    elif isinstance(e, ast.Call) and not e.args and not e.keywords and isinstance(e.func, ast.Attribute):
+                        e = e.func.value
+                    else:
+                        break
+                return e.id if isinstance(e, ast.Name) else None
+
+            def renamed(e, frm, to):
+                import copy as _copy
+
+                e2 = _copy.deepcopy(e)
+                for n_ in ast.walk(e2):
+                    if isinstance(n_, ast.Name) and n_.id == frm:
+                        n_.id = to
+                return ast.dump(e2)
+
             for n in ast.walk(fn.node):
                 if not isinstance(n, ast.Return) or n.value is None:
                     continue
                 v = n.value
-                if which == "eq" and isinstance(v, ast.Compare) and len(v.ops) == 1 and isinstance(v.ops[0], ast.Eq) and len(ps) == 2 \
-                        and isinstance(v.left, ast.Attribute) and isinstance(v.comparators[0], ast.Attribute) \
-                        and isinstance(v.left.value, ast.Name) and isinstance(v.comparators[0].value, ast.Name) \
-                        and {v.left.value.id, v.comparators[0].value.id} == set(ps) and v.left.attr == v.comparators[0].attr:
-                    found.add(v.left.attr)
+                if which == "eq" and isinstance(v, ast.Compare) and len(v.ops) == 1 and isinstance(v.ops[0], ast.Eq) and len(ps) == 2:
+                    l, r_ = v.left, v.comparators[0]
+                    if chain_root(l) == ps[1] and chain_root(r_) == ps[0]:
+                        l, r_ = r_, l
+                    if chain_root(l) == ps[0] and chain_root(r_) == ps[1] and not isinstance(l, ast.Name) and renamed(r_, ps[1], ps[0]) == ast.dump(l):
+                        found[ast.dump(l)] = l
+                        continue
+                    return None
                 elif which == "eq" and (isinstance(v, ast.Name) and v.id == "NotImplemented" or isinstance(v, ast.Constant) and v.value is False):
                     continue
                 elif which == "hash" and isinstance(v, ast.Call) and isinstance(v.func, ast.Name) and v.func.id == "hash" and len(v.args) == 1 \
-                        and isinstance(v.args[0], ast.Attribute) and isinstance(v.args[0].value, ast.Name) and v.args[0].value.id == ps[0]:
-                    found.add(v.args[0].attr)
+                        and chain_root(v.args[0]) == ps[0] and not isinstance(v.args[0], ast.Name):
+                    found[ast.dump(v.args[0])] = v.args[0]
                 else:
                     return None
-            return found.pop() if len(found) == 1 else None
+            if len(found) != 1:
+                return None
+            return ps[0], next(iter(found.values()))
 
-        a, b = attr_of(eq, "eq"), attr_of(hs, "hash")
-        if a is None or b is None or a not in k.attrs or b not in k.attrs:
-            raise AnalysisError("%s: __eq__ / __hash__ are not of the form `self.x == other.x` / `hash(self.y)`; its use as a dictionary key is not modelled" % k.cls.qualname)
-        q, x = k.attrs[a], k.attrs[b]
+        a, b = view_of(eq, "eq"), view_of(hs, "hash")
+        if a is None or b is None:
+            raise AnalysisError("%s: __eq__ / __hash__ are not of the form `E(self) == E(other)` / `hash(E'(self))`; its use as a dictionary key is not modelled" % k.cls.qualname)
+
+        def value_of(fn: FuncInfo, view):
+            me, e = view
+            n0 = len(self.path.effects)
+            try:
+                return Frame(self, fn, {me: k}, module=fn.module).expr(e)
+            finally:
+                # reading one's own attributes to be compared or hashed is not an effect of the computation
+                self.path.effects[n0:] = [x for x in self.path.effects[n0:] if x[0] not in ("getattr", "read")]
+
+        try:
+            q, x = value_of(eq, a), value_of(hs, b)
+        except AnalysisError:
+            raise AnalysisError("%s: what __eq__ compares / __hash__ hashes cannot be evaluated; its use as a dictionary key is not modelled" % k.cls.qualname)
         if repr(q) == repr(x):
             return q
 
@@ -800,7 +840,7 @@ class Interp(object):
             return q  # the hash is computed from what equality compares: equality decides
         if inside(x, q):
             return x  # equality compares something computed from what is hashed: the hash already separates
-        raise AnalysisError("%s: __eq__ compares .%s and __hash__ hashes .%s, which are not derived from one another" % (k.cls.qualname, a, b))
+        raise AnalysisError("%s: __eq__ compares %s and __hash__ hashes %s, which are not derived from one another" % (k.cls.qualname, ast.unparse(a[1]), ast.unparse(b[1])))
 
     def truth(self, v, node=None) -> bool:
         if isinstance(v, bool):
@@ -978,7 +1018,10 @@ class Interp(object):
         return self.path.termeq[k]
 
     def contains(self, container, item):
-        if isinstance(container, (list, tuple, str, dict)) and isinstance(item, (str, int)):
+        if isinstance(container, AStruct) and container.kind == "class-namespace" and isinstance(item, str):
+            ci_ = container.fields["cls"]
+            return ("class-store", ci_.qualname, item) in self.path.termeq or item in ci_.attrs
+        if isinstance(container, (list, tuple, str, dict, frozenset)) and isinstance(item, (str, int)):
             return item in container
         if isinstance(container, AList) and not container.generic and isinstance(item, (str, int)):
             return item in container.items
@@ -1598,8 +1641,10 @@ class Frame(object):
                     obj.fields[target.attr] = v
                 return
             if isinstance(obj, ClassInfo):
-                # class-level state: owned by the persistent-state rule (C06); no effect on this evaluation
+                # class-level state (judged by the persistent-state rule of C06): later reads on this path see it, on the
+                # class itself and -- through the MRO -- on its subclasses
                 self.I.path.effects.append(("class-store", obj.qualname, target.attr, v))
+                self.I.path.termeq[("class-store", obj.qualname, target.attr)] = v
                 return
             self.unsupported(target, "attribute store on %r" % (obj,))
         if isinstance(target, ast.Subscript):
@@ -1634,6 +1679,59 @@ class Frame(object):
             r_ = hook(self, it, st.iter)  # a library object a kernel knows how to walk (an open archive, a listing)
             if r_ is not NotImplemented:
                 it = r_
+        if st is I.step_loop and isinstance(it, ARange) and not it.desc:
+            # the loop under inductive evaluation is bounded by a number of rounds: an arbitrary round j (0 <= j, with
+            # whatever the kernel knows about j) either exists (j < bound) and runs like the body of a while loop, or the
+            # rounds are used up
+            I.path.effects.append(("loop-entry", I.merged_env()))
+            hav = I.hooks.get("havoc")
+            if hav is None:
+                self.unsupported(st, "no havoc hook for the loop")
+            hav(self)
+            j = Aff.sym("rounds@L%d" % st.lineno)
+            I.path.cons.add(j)
+            inv = I.hooks.get("for_invariant")
+            if inv is not None:
+                inv(self, st, it, j)
+            more = I.ge0(it.hi - it.lo - j - 1)
+            I.path.choices.append(("loop-cond", more))
+            if more:
+                self.assign(st.target, it.lo + j)
+                try:
+                    self.block(st.body)
+                except LoopContinue:
+                    pass
+                except LoopBreak:
+                    I.path.choices.append(("loop-break", True))
+                    return
+                raise StepDone(I.merged_env())
+            I.path.choices.append(("loop-exhausted", True))
+            self.block(st.orelse)
+            return
+        if isinstance(it, Term) and it.op == "items" and it.args and isinstance(it.args[0], AMapGen) and not st.orelse:
+            # every entry of a uniform table (the per-letter tracks) visited once; a dict that was empty before the loop
+            # and receives exactly `d[key] = image(value)` in the body is the uniform table of the images afterwards
+            src = it.args[0]
+            k, v = Term("key:" + src.name), src.value
+            fresh = [(nm, d) for nm, d in self.env.items() if isinstance(d, dict) and not d]
+            I.path.effects.append(("loop", "items-of:" + src.name, k))
+            self.assign(st.target, (k, v))
+            I.loop_depth += 1
+            try:
+                self.block(st.body)
+            except LoopContinue:
+                pass
+            except LoopBreak:
+                self.unsupported(st, "break in a loop over the entries of a uniform table")
+            finally:
+                I.loop_depth -= 1
+            for nm, d in fresh:
+                if not d:
+                    continue
+                if list(d.keys()) != [k]:
+                    self.unsupported(st, "a table filled under other keys than those of the table walked")
+                self.env[nm] = AMapGen(src.name, d[k])
+            return
         if isinstance(it, AGenCall):
             broke = []
 
@@ -2089,6 +2187,11 @@ class Frame(object):
         if isinstance(r, (ClassInfo, ModRef, FuncInfo)):
             return r
         if isinstance(r, Ext):
+            from .loader import library_constant
+
+            ok_, v_ = library_constant(r.dotted)
+            if ok_:
+                return v_
             return LibRef(r.dotted)
         if isinstance(r, tuple) and r and r[0] == "assign":
             _, mod, val = r
@@ -2110,6 +2213,11 @@ class Frame(object):
         if isinstance(base, LibRef):
             if (base.dotted == "six" and a == "MAXSIZE") or (base.dotted == "sys" and a == "maxsize"):
                 return Aff.sym("MAXSIZE")
+            from .loader import library_constant
+
+            ok_, v_ = library_constant(base.dotted + "." + a)
+            if ok_:
+                return v_
             return LibRef(base.dotted + "." + a)
         if isinstance(base, AObj):
             try:
@@ -2121,6 +2229,10 @@ class Frame(object):
                     r = hook(self, base, a, node)
                     if r is not NotImplemented:
                         return r
+                if _certainly_no_attr(I.p, base.cls, a):
+                    # an object of a class of the code base, with no library base class: an attribute that neither a class
+                    # body on its MRO binds nor any statement of the code base ever stores does not exist (T3)
+                    raise RaiseSig(AExc("AttributeError", ["'%s' object has no attribute '%s'" % (base.cls.name, a)], {}))
                 raise
         if isinstance(base, SuperProxy):
             if isinstance(base.obj, AObj):
@@ -2132,6 +2244,14 @@ class Frame(object):
                 return BoundMethod("lib-super", base.obj, a)
             self.unsupported(node, "super() attribute")
         if isinstance(base, ClassInfo):
+            for c_ in I.p.mro(base):
+                if not isinstance(c_, ClassInfo):
+                    continue
+                st_ = I.path.termeq.get(("class-store", c_.qualname, a), _MISSING)
+                if st_ is not _MISSING:
+                    return st_  # stored on the class at run time (earlier on this path, or before the call: a kernel's scenario)
+                if a in c_.attrs:
+                    break
             owner, raw = I.p.class_attr_def(base, a)
             if owner is None:
                 hook = I.hooks.get("class_getattr")
@@ -2232,6 +2352,11 @@ class Frame(object):
         if isinstance(base, ACollection):
             # part of the input collection
             return ACollection("%s[%s:%s]" % (base.name, "" if lo is None else lo, "" if hi is None else hi), base.make_elem)
+        if isinstance(base, Term) and base.op == "concat" and lo is None and isinstance(hi, int) and hi < 0 and getattr(base, "operands", None):
+            l_, r_ = base.operands
+            if isinstance(r_, AList) and not r_.generic and len(r_.items) == -hi and isinstance(l_, ACollection):
+                # (xs + [a, b])[:-2]: a new list of exactly the elements of xs
+                return ACollection(l_.name, l_.make_elem)
         if isinstance(base, Term):
             if lo is None and hi is None:
                 return Term("shallow-copy", base)
@@ -2240,6 +2365,14 @@ class Frame(object):
 
     def index(self, base, idx, node):
         I = self.I
+        if isinstance(base, AStruct) and base.kind == "class-namespace" and isinstance(idx, str):
+            ci_ = base.fields["cls"]
+            st_ = I.path.termeq.get(("class-store", ci_.qualname, idx), _MISSING)
+            if st_ is not _MISSING:
+                return st_
+            if idx in ci_.attrs:
+                return self.getattr(ci_, idx, node)
+            raise RaiseSig(AExc("KeyError", [idx], {}))
         if isinstance(base, AList):
             if isinstance(idx, Aff) and idx.is_const:
                 idx = idx.c
@@ -2439,7 +2572,9 @@ class Frame(object):
                 res = hook(self, l, r, node)
                 if res is not NotImplemented:
                     return res
-            return Term("concat", _t(l), _t(r))
+            out = Term("concat", _t(l), _t(r))
+            out.operands = (l, r)  # what was joined: a slice that cuts the join off again gives the operand back (a copy)
+            return out
         self.unsupported(node, "concatenation of %r and %r" % (l, r))
 
     def e_UnaryOp(self, e):
@@ -3104,6 +3239,59 @@ def _concrete(v) -> bool:
     return False
 
 
+def _certainly_no_attr(p, cls, name: str) -> bool:
+    if not isinstance(cls, ClassInfo) or name.startswith("__"):
+        return False
+    for c in p.mro(cls):
+        if isinstance(c, ClassInfo):
+            if "__getattr__" in c.attrs or "__getattribute__" in c.attrs or getattr(c, "opaque_decorator", None):
+                return False
+        elif getattr(c, "dotted", "") not in ("builtins.object", "object", "typing.Generic"):
+            return False
+    stored = p.__dict__.get("_stored_attr_names")
+    if stored is None:
+        # (attribute name, class whose method stores it on its own instance -- None when the receiver is anything else)
+        stored = set()
+        for m in p.modules.values():
+            owner_of = {}
+            for ci in m.classes.values():
+                for fn in ast.walk(ci.node):
+                    if isinstance(fn, (ast.FunctionDef, ast.AsyncFunctionDef)) and fn.args.args:
+                        for n in ast.walk(fn):
+                            owner_of.setdefault(id(n), (ci, fn.args.args[0].arg))
+            for n in ast.walk(m.tree):
+                if isinstance(n, ast.Attribute) and isinstance(n.ctx, (ast.Store, ast.Del)):
+                    own = owner_of.get(id(n))
+                    if own is not None and isinstance(n.value, ast.Name) and n.value.id == own[1]:
+                        stored.add((n.attr, own[0].qualname))
+                    else:
+                        stored.add((n.attr, None))
+                elif isinstance(n, ast.Call) and isinstance(n.func, ast.Name) and n.func.id == "setattr" and len(n.args) >= 2:
+                    if isinstance(n.args[1], ast.Constant) and isinstance(n.args[1].value, str):
+                        stored.add((n.args[1].value, None))
+                    else:
+                        stored.add(("*", None))
+                elif isinstance(n, ast.Attribute) and n.attr == "__dict__" and isinstance(n.ctx, ast.Load):
+                    par_is_write = False
+                    for q in ast.walk(m.tree):
+                        if isinstance(q, ast.Subscript) and q.value is n and isinstance(q.ctx, (ast.Store, ast.Del)):
+                            par_is_write = True
+                        if isinstance(q, ast.Attribute) and q.value is n and q.attr in ("update", "setdefault", "__setitem__", "pop", "clear"):
+                            par_is_write = True
+                    if par_is_write:
+                        stored.add(("*", None))
+        p.__dict__["_stored_attr_names"] = stored
+    if ("*", None) in stored or (name, None) in stored:
+        return False
+    related = {c.qualname for c in p.mro(cls) if isinstance(c, ClassInfo)}
+    for nm, q in stored:
+        if nm == name and q is not None:
+            other = p.get_class(q) if q not in related else None
+            if q in related or (other is not None and p.is_subclass(other, cls)):
+                return False
+    return True
+
+
 def _hashable(k):
     if isinstance(k, (str, int, type(None), Term)):
         return k
@@ -3198,6 +3386,8 @@ def _dataclass_fields(p, ci):
 
 def lib_getattr(fr: Frame, base, a: str, node):
     I = fr.I
+    if isinstance(base, tuple) and getattr(base, "fields", None) and a in base.fields:
+        return base[base.fields.index(a)]  # a namedtuple constant of the code base (folded class / module attribute)
     if isinstance(base, AStruct) and base.kind == "logger":
         if a in ("debug", "info", "warning", "warn", "error", "exception", "critical", "log", "setLevel", "addHandler"):
             bm = BoundMethod("py", lambda fr2, args, kwargs, node2: None, a)
@@ -3598,6 +3788,40 @@ def lib_call_method(fr: Frame, bm: BoundMethod, args, kwargs, node):
                 return t.format(*args)
             if any(isinstance(a, Aff) for a in args):
                 return AFormat(t, list(args), dict(kwargs))
+            if kwargs:
+                # the fields the template really uses, in order of appearance ({name} / {0} / {}): a value the template
+                # does not mention does not reach the text
+                import string as _string
+
+                used, auto = [], 0
+                try:
+                    fields = list(_string.Formatter().parse(t))
+                except ValueError:
+                    fr.unsupported(node, "malformed format string %r" % (t,))
+                for _lit, fname, spec, conv in fields:
+                    if fname is None:
+                        continue
+                    if spec and "{" in spec:
+                        fr.unsupported(node, "nested format spec in %r" % (t,))
+                    if fname == "":
+                        fname, auto = str(auto), auto + 1
+                    if not re.fullmatch(r"[A-Za-z_]\w*|\d+", fname):
+                        fr.unsupported(node, "format field %r with attribute or index access" % (fname,))
+                    if fname.isdigit():
+                        if int(fname) >= len(args):
+                            raise RaiseSig(AExc("IndexError", ["Replacement index %s out of range for positional args tuple" % fname], {}))
+                        used.append(args[int(fname)])
+                    else:
+                        if fname not in kwargs:
+                            raise RaiseSig(AExc("KeyError", [fname], {}))
+                        used.append(kwargs[fname])
+                if all(isinstance(a, (str, int)) and not isinstance(a, bool) for a in used) and all(isinstance(a, (str, int)) for a in args) \
+                        and all(isinstance(v_, (str, int)) or v_ not in used for v_ in kwargs.values()):
+                    try:
+                        return t.format(*args, **{k_: v_ for k_, v_ in kwargs.items() if isinstance(v_, (str, int))})
+                    except (KeyError, IndexError, ValueError):
+                        pass
+                return Term("format", Term(repr(t)), *[_t(a) for a in used])
             return Term("format", Term(repr(t)), *[_t(a) for a in args])
         if name == "join":
             a0 = args[0]
@@ -3761,7 +3985,17 @@ def lib_call(fr: Frame, dotted: str, args, kwargs, node):
         r = hook(fr, dotted, args, kwargs, node)
         if r is not NotImplemented:
             return r
+    if dotted == "types.MappingProxyType" and len(args) == 1 and not kwargs:
+        return args[0]  # a read-only view: every read gives what the mapping gives (nothing in reach writes through a view)
+    if dotted == "collections.OrderedDict" and (not args or not (isinstance(args[0], AList) and not args[0].generic)):
+        dotted = "builtins.dict"  # insertion-ordered like every dict of the interpreters the library supports
     short = dotted.split(".")[-1]
+    if dotted == "builtins.bool" and len(args) <= 1 and not kwargs:
+        if not args:
+            return False
+        if isinstance(args[0], ABoolTerm):
+            return args[0]
+        return I.truth(args[0], node)
     if dotted == "builtins.len":
         v = args[0]
         if isinstance(v, (ASeq, ARec)):
@@ -3908,6 +4142,12 @@ def lib_call(fr: Frame, dotted: str, args, kwargs, node):
         return AExitStack()
     if dotted == "builtins.isinstance":
         return lib_isinstance(fr, args[0], args[1], node)
+    if dotted == "builtins.vars" and len(args) == 1 and isinstance(args[0], ClassInfo):
+        return AStruct("class-namespace", cls=args[0])
+    if dotted == "builtins.setattr" and len(args) == 3 and isinstance(args[0], ClassInfo) and isinstance(args[1], str):
+        I.path.effects.append(("class-store", args[0].qualname, args[1], args[2]))
+        I.path.termeq[("class-store", args[0].qualname, args[1])] = args[2]
+        return None
     if dotted in ("builtins.getattr", "builtins.hasattr") and len(args) >= 2 and isinstance(args[1], str):
         try:
             v = fr.getattr(args[0], args[1], node)
@@ -3995,6 +4235,18 @@ def lib_call(fr: Frame, dotted: str, args, kwargs, node):
             if hasattr(src, extra):
                 setattr(out, extra, getattr(src, extra))
         return out
+    if dotted in ("builtins.tuple", "builtins.list") and len(args) == 1 and not kwargs and isinstance(args[0], (AMap, AMapView)):
+        # a snapshot of the keys / items of a symbolic table, walked like the table itself (every element is an entry of it)
+        return AMapView(args[0], "keys") if isinstance(args[0], AMap) else AMapView(args[0].m, args[0].which)
+    if dotted in ("builtins.tuple", "builtins.list") and len(args) == 1 and isinstance(args[0], Term) and args[0].op == "concat" \
+            and getattr(args[0], "operands", None):
+        out = Term("concat", *args[0].args)  # a copy (frozen or not) of the joined sequence: the same elements in the same order
+        out.operands = args[0].operands
+        return out
+    if dotted == "builtins.frozenset" and len(args) == 1 and not kwargs:
+        src_ = args[0].items if isinstance(args[0], AList) and not args[0].generic else args[0]
+        if isinstance(src_, (list, tuple, frozenset, dict)) and all(isinstance(x, (str, int)) and not isinstance(x, bool) for x in src_):
+            return frozenset(src_)  # a constant set of names: membership of a constant in it is decided, not assumed
     if dotted in ("builtins.sorted", "builtins.set", "builtins.frozenset", "builtins.tuple") and len(args) >= 1:
         return Term(short, _t(args[0]))
     if dotted == "builtins.next" and args and isinstance(args[0], Term) and args[0].op in ("filter", "map"):
@@ -4062,7 +4314,12 @@ def lib_call(fr: Frame, dotted: str, args, kwargs, node):
             items = list(args[0].items if isinstance(args[0], AList) else args[0])
             return AList([(start + i, x) for i, x in enumerate(items)], I.loop_depth)
     if dotted == "builtins.enumerate":
-        return Term("enumerate", _t(args[0]))
+        start = args[1] if len(args) > 1 else kwargs.get("start", 0)
+        if isinstance(start, Aff) and start.is_const:
+            start = start.c
+        if start == 0 and isinstance(start, int):
+            return Term("enumerate", _t(args[0]))
+        return Term("enumerate", _t(args[0]), Term("start=%r" % (start,)))
     if dotted == "builtins.str.maketrans" and args and not kwargs and all(_concrete(a) for a in args):
         try:
             return str.maketrans(*args)
